@@ -25,10 +25,8 @@ import (
 
 	"helm.sh/helm/v4/pkg/action"
 	chart "helm.sh/helm/v4/pkg/chart/v2"
-	chartutil "helm.sh/helm/v4/pkg/chart/v2/util"
 	"helm.sh/helm/v4/pkg/kube"
 	rspb "helm.sh/helm/v4/pkg/release/v1"
-	"helm.sh/helm/v4/pkg/storage"
 	"helm.sh/helm/v4/pkg/storage/driver"
 
 	"verif/harness/internal/eng"
@@ -57,6 +55,11 @@ type c06Wide struct {
 	Recreate        bool `json:"recreate,omitempty"`
 	IgnoreNotFound  bool `json:"ignore_not_found,omitempty"`
 	IsUpgrade       bool `json:"is_upgrade,omitempty"`
+	// configuration and cluster (richer model)
+	Getter    bool `json:"getter,omitempty"`     // the configuration has a RESTClientGetter (REST config, discovery, REST mapper) in front of the simulated server
+	NilCaps   bool `json:"nil_caps,omitempty"`   // Configuration.Capabilities is nil: getCapabilities asks the server
+	Lookups   int  `json:"lookups,omitempty"`    // number of `lookup` calls in the templates
+	CRDExists bool `json:"crd_exists,omitempty"` // the CustomResourceDefinition of crds/ is already in the cluster
 }
 
 // ---- counting storage wrapper (reads hand out copies, so nothing can alias the store) ----
@@ -220,6 +223,13 @@ func c06Chart(op *eng.Op, w *c06Wide) *chart.Chart {
 	if w.Notes {
 		c.Templates = append(c.Templates, &chart.File{Name: "templates/NOTES.txt", Data: []byte("release {{ .Release.Name }} rev {{ .Release.Revision }}\n")})
 	}
+	if w.Lookups > 0 {
+		var b strings.Builder
+		for i := 0; i < w.Lookups; i++ {
+			fmt.Fprintf(&b, "{{- $_ := lookup \"v1\" \"ConfigMap\" .Release.Namespace \"a\" -}}\n")
+		}
+		c.Templates = append(c.Templates, &chart.File{Name: "templates/zz-lookup.yaml", Data: []byte(b.String())})
+	}
 	if w.Subchart {
 		sub := &chart.Chart{Metadata: &chart.Metadata{APIVersion: "v2", Name: "sub", Version: "0.1.0"}}
 		sub.Templates = []*chart.File{
@@ -271,12 +281,11 @@ func c06Classify(err error) string {
 	return "err:other"
 }
 
-// c06RunWide executes one operation with the wide flag set / chart features.
-func c06RunWide(r *eng.Runner, op *eng.Op, w *c06Wide) (so eng.StepObs) {
-	d := &c06Drv{inner: r.Inner}
-	cfg := &action.Configuration{KubeClient: &c06Kube{c06Client(r.Srv)}, Releases: storage.Init(d),
-		Capabilities: chartutil.DefaultCapabilities.Copy()}
-	req0, mreq0 := r.Srv.Requests(), r.Srv.MutatingRequests()
+// c06RunWide executes one operation with the wide flag set / chart features, in the recording
+// environment of c06_rich.go.
+func c06RunWide(r *eng.Runner, op *eng.Op, w *c06Wide) (so eng.StepObs, ro *c06RichObs) {
+	env := c06NewEnv(r, w)
+	cfg := env.cfg
 	var err error
 	func() {
 		defer func() {
@@ -300,7 +309,7 @@ func c06RunWide(r *eng.Runner, op *eng.Op, w *c06Wide) (so eng.StepObs) {
 			a.WaitForJobs, a.DisableOpenAPIValidation, a.IncludeCRDs, a.SubNotes, a.IsUpgrade = w.WaitForJobs, w.NoValidate, w.IncludeCRDs, w.SubNotes, w.IsUpgrade
 			a.WaitStrategy = ws
 			if w.PostRender {
-				a.PostRenderer = c06PostRenderer{}
+				a.PostRenderer = env.post()
 			}
 			a.Timeout = time.Second
 			_, err = a.Run(c06Chart(op, w), vals)
@@ -313,7 +322,7 @@ func c06RunWide(r *eng.Runner, op *eng.Op, w *c06Wide) (so eng.StepObs) {
 			a.WaitForJobs, a.DisableOpenAPIValidation, a.SubNotes = w.WaitForJobs, w.NoValidate, w.SubNotes
 			a.WaitStrategy = ws
 			if w.PostRender {
-				a.PostRenderer = c06PostRenderer{}
+				a.PostRenderer = env.post()
 			}
 			a.Timeout = time.Second
 			_, err = a.Run(eng.RelName, c06Chart(op, w), vals)
@@ -335,10 +344,8 @@ func c06RunWide(r *eng.Runner, op *eng.Op, w *c06Wide) (so eng.StepObs) {
 	if err != nil {
 		so.ErrText = err.Error()
 	}
-	so.Ledger = c06Ledger(r.Inner)
-	so.Objs = r.Srv.Snapshot()
-	so.MutReqs = r.Srv.MutatingRequests() - mreq0
-	so.Reqs = r.Srv.Requests() - req0
-	so.SWrites = d.writes
+	env.finish(&so)
+	ro = env.rich(err, so.Panic != "")
+	ro.Rendered, ro.RHooks = c06RenderWide(op, w)
 	return
 }
